@@ -20,8 +20,12 @@ CLAIMED = {
              "the source each run) and that outside the set the fast path equals the slow path (C15_fast_eq_slow). "
              "exact_errors never changes the token stream: for any two option values, any machine and any chunking the "
              "sessions and end() deliver the same tokens once parse errors are erased (C15_exact_errors_tokens). The loop's "
-             "fuel bound and totality of end() are proved under C04 (C04_xml_parse_total). Partial: 'no raw CR/NUL reaches "
-             "the sink' as a global invariant and the tree-builder level are not theorems; they are checked on the real code by "
+             "fuel bound and totality of end() are proved under C04 (C04_xml_parse_total). No raw CR / NUL reaches the sink (Props/C15Clean.lean, "
+             "C15_no_raw_cr_nul: for every input and chunking no token contains U+0000, and U+000D occurs only in character "
+             "tokens and attribute values, where only a numeric reference can put it - C15_step_provenance, C15_ref_no_nul; "
+             "C15_clean_no_refs: without '&' no CR at all). Tree level (Props/C15Tree.lean): the XML tree-builder model is "
+             "insensitive to how text is cut into character tokens (C15_tree_merge_obs; the NUMBER of parse-error reports does "
+             "depend on the cut - C15_tree_error_count_depends_on_cut - and is observed only up to repetition). The real code is additionally checked by "
              "code-vs-code oracles (every 2-partition / singletons / random partitions; exact_errors on/off modulo error "
              "tokens; CR and CRLF spellings vs LF; NUL vs U+FFFD; discard_bom on/off; tokens and RcDom trees).",
         note="Trusted: Lean kernel; the hand-written model + the xmltok correspondence (token stream incl. error messages on "
@@ -234,7 +238,10 @@ CLAIMED["C20"] = dict(
          "overwrites and adds each missing name once; reparent_children keeps order and empties the source; template "
          "contents; remove_from_parent; the repaired append_before_sibling inserts immediately before the sibling "
          "whatever old parent the node had; the repaired option->selectedcontent mirroring preserves the invariant "
-         "and replaces the selectedcontent's children by fresh copies of the option's children; rcdom's Serialize "
+         "and replaces the selectedcontent's children by DEEP copies of the option's children, in order (Props/C20Deep.lean, "
+         "C20_clone_option: every copied subtree is isomorphic to the original one to every depth - data, children, template "
+         "contents cloned recursively and never shared -, all copy ids fresh, parent links consistent, the originals and "
+         "every other node untouched; TcValid, the extra well-formedness it needs, holds in every reachable arena); rcdom's Serialize "
          "visits every node of a tree exactly once in document order within the stated fuel. The model is tied to "
          "rcdom/lib.rs by replaying TreeSink traces on the real RcDom (through the trait, under the contract monitor) "
          "and on the model: dumps incl. Weak parent pointers, template contents, quirks mode, parse errors and the "
@@ -242,8 +249,9 @@ CLAIMED["C20"] = dict(
          "the expected result of every contract-abiding case.",
     note="Trusted: Lean kernel; the hand-written model lean/H5V/Model/Dom.lean + the rcdom correspondence "
          "(differential; coverage in evidence); the Python reference DOM (oracle). Carried by the correspondence only, "
-         "not proved: that contract-abiding calls never panic in RcDom (valid families never panic; see C05), the "
-         "deep structure of the option copies below the first level, Rc/Weak lifetimes and Drop (the arena never "
+         "not proved: that contract-abiding calls never panic in RcDom (valid families never panic; see C05; for the mirror "
+         "call the contract alone is NOT enough - C05_mirror_needs_more_than_contract: a template placed inside its own "
+         "contents makes the clone diverge - which is why C05 keeps its NotMirror exclusion), Rc/Weak lifetimes and Drop (the arena never "
          "frees a node, the engine keeps every handle alive). Two defects found on the pinned tree (selectedcontent "
          "never mirrored; append_before_sibling stale index) are repaired in /repo (ebdbd68, 394a5e0); the pinned "
          "behaviour is kept as named model variants with witness theorems, the minimal inputs as regression corpus.")
@@ -287,13 +295,22 @@ CLAIMED["C17"] = dict(
          "theorem (C17_okEvs_fixed: every prefix used by an element or any of its attributes is declared, the default "
          "namespace is un-declared where needed, for every tree with parser-produced tags), giving C17_roundtrip_fixed "
          "without side condition, U+000D included. The five pre-fix defects are decided witnesses about the named "
-         "configuration SerCfg.code. Partial: that every tree the parser builds has parser-produced tags / parsed shape "
+         "configuration SerCfg.code. WITH THE TOKENIZER MODEL IN THE LOOP (Props/C17RT.lean): C17_tok_events - the XML "
+         "tokenizer model fed the serializer model's text (any chunking, either exact_errors value, either discard_bom "
+         "setting; the output always starts with '<') and end()ed delivers, after dropping error tokens and merging character "
+         "tokens, exactly the event list lexEv; C17_roundtrip_tok composes it with the tree builder: serialize, tokenize, "
+         "build = the same tree, no abstract lexer left - under the lexical hypothesis nodesLex (names without blanks / '/' "
+         "/ '>' / '=' in the wrong places, no leading ':' on attribute names, comments without '--', PI data not starting "
+         "with a blank ...). The hypothesis is needed: three PARSER-PRODUCED trees violate it and do not round-trip "
+         "(C17_witness_attr_leading_colon `<r a :b='1'/>`, C17_witness_prefix_eq `<=a:b/>`, C17_witness_pi_blank `<?t? x?>`; "
+         "confirmed on the real code; KNOWN FINDINGS C17-lex-colon / -eq / -pi: the error-tolerant XML5 tokenizer accepts "
+         "names no XML text can spell; recorded, not repaired). Partial: that every tree the parser builds has parser-produced tags / parsed shape "
          "(treesOK, nodesOK) is not proved as one theorem (it follows the C16 statements: one scope per tag, duplicates "
          "removed, declarations consumed) - the src-mode oracle (parse, serialize, parse) covers it on the real code.",
-    note="Trusted: Lean kernel; lean/H5V/Model/XmlSer.lean; `lexEv` = ASSUMED tokenization of serializer output (names split "
-         "at the colon, five references + &#13; decoded, CR/LF normalisation, declarations/attributes through the modelled "
-         "attribute step) - not proved against a tokenizer model; it is validated on every case: tree-builder model on "
-         "lexEv tokens = real re-parse of the real bytes (cases with lex-hostile namespace URIs compare bytes only). "
+    note="Trusted: Lean kernel; lean/H5V/Model/XmlSer.lean, XmlTok.lean, XmlTB.lean + their correspondences; `lexEv` (names "
+         "split at the colon, five references + &#13; decoded, CR/LF normalisation, declarations/attributes through the "
+         "modelled attribute step) is now PROVED to be what the tokenizer model delivers under nodesLex (C17_tok_events) and "
+         "is still validated on every case: tree-builder model on lexEv tokens = real re-parse of the real bytes. "
          "Doctype public/system ids are outside the serializer API.")
 
 CLAIMED["C05"] = dict(
